@@ -820,3 +820,106 @@ impl fmt::Display for AVal {
         write!(f, "av{}", self.0)
     }
 }
+
+/// Three-byte key (alignment 1): byte 0 = class, byte 1 = tag, byte 2 = check byte.  With the six-byte value
+/// below a pair is 9 bytes, a set element 3 bytes: sizes that divide no power of two.
+#[derive(Clone, Copy)]
+pub struct Odd3(pub [u8; 3]);
+impl Odd3 {
+    pub fn new(class: u32, tag: u32) -> Self {
+        let (c, t) = (class as u8, tag as u8);
+        Odd3([c, t, c ^ t ^ 0x5A])
+    }
+    pub fn class(&self) -> u32 {
+        u32::from(self.0[0])
+    }
+    pub fn tag(&self) -> u32 {
+        u32::from(self.0[1])
+    }
+    pub fn intact(&self) -> bool {
+        self.0[2] == self.0[0] ^ self.0[1] ^ 0x5A
+    }
+}
+impl PartialEq for Odd3 {
+    fn eq(&self, o: &Self) -> bool {
+        self.0[0] == o.0[0]
+    }
+}
+impl Eq for Odd3 {}
+impl fmt::Debug for Odd3 {
+    fn fmt(&self, f: &mut fmt::Formatter<'_>) -> fmt::Result {
+        write!(f, "O{}#{}", self.class(), self.tag())
+    }
+}
+impl fmt::Display for Odd3 {
+    fn fmt(&self, f: &mut fmt::Formatter<'_>) -> fmt::Result {
+        write!(f, "o{}.{}", self.class(), self.tag())
+    }
+}
+/// Six-byte value (alignment 1): payload in little-endian bytes 0..4, two check bytes.
+#[derive(Clone, Copy, PartialEq, Eq)]
+pub struct Odd6(pub [u8; 6]);
+impl Odd6 {
+    pub fn new(p: u32) -> Self {
+        let b = p.to_le_bytes();
+        Odd6([b[0], b[1], b[2], b[3], b[0] ^ b[2] ^ 0xA5, b[1] ^ b[3] ^ 0x3C])
+    }
+    pub fn get(&self) -> u32 {
+        u32::from_le_bytes([self.0[0], self.0[1], self.0[2], self.0[3]])
+    }
+    pub fn intact(&self) -> bool {
+        self.0[4] == self.0[0] ^ self.0[2] ^ 0xA5 && self.0[5] == self.0[1] ^ self.0[3] ^ 0x3C
+    }
+}
+impl Default for Odd6 {
+    fn default() -> Self {
+        Odd6::new(0)
+    }
+}
+impl fmt::Debug for Odd6 {
+    fn fmt(&self, f: &mut fmt::Formatter<'_>) -> fmt::Result {
+        write!(f, "OV{}", self.get())
+    }
+}
+impl fmt::Display for Odd6 {
+    fn fmt(&self, f: &mut fmt::Formatter<'_>) -> fmt::Result {
+        write!(f, "ov{}", self.get())
+    }
+}
+
+/// Twelve-byte key (not a multiple of the word size): class, a constant, and the identity tag in the TRAILING
+/// four bytes; `==` looks at the class only.
+#[derive(Clone, Copy)]
+#[repr(C)]
+pub struct K12 {
+    pub class: u32,
+    pub fill: u32,
+    pub tag: u32,
+}
+impl K12 {
+    pub fn new(class: u32, tag: u32) -> Self {
+        K12 { class, fill: 0x1234_5678, tag }
+    }
+}
+impl PartialEq for K12 {
+    fn eq(&self, o: &Self) -> bool {
+        self.class == o.class
+    }
+}
+impl Eq for K12 {}
+impl Borrow<Class> for K12 {
+    fn borrow(&self) -> &Class {
+        // SAFETY: Class is repr(transparent) over u32
+        unsafe { &*(&self.class as *const u32).cast::<Class>() }
+    }
+}
+impl fmt::Debug for K12 {
+    fn fmt(&self, f: &mut fmt::Formatter<'_>) -> fmt::Result {
+        write!(f, "D{}#{}", self.class, self.tag)
+    }
+}
+impl fmt::Display for K12 {
+    fn fmt(&self, f: &mut fmt::Formatter<'_>) -> fmt::Result {
+        write!(f, "d{}.{}", self.class, self.tag)
+    }
+}
